@@ -50,6 +50,7 @@ CHECKS = {
     ]),
     "C15": dict(tests=[
         rapid("pure", "TestC15Eval", 40000, 4000000, qs=8, replay="TestC15EvalReplay"),
+        rapid("e2e", "TestC15Index", 320, 16000, qs=16, ts=16, timeout=1200, ttimeout=14000, replay="TestC15IndexReplay"),
         fuzz("pure", "FuzzC15Parser", 120),
     ]),
     "C16": dict(tests=[rapid("e2e", "TestC16", 32, 1600, qs=16, ts=16, timeout=1500, ttimeout=14000)]),  # one rapid check = a batch of 12 cases run concurrently
